@@ -44,6 +44,10 @@ pub enum Op {
     CloneFrom(String),
     /// `loc.id.clone_from(&parsed language identifier)`
     CloneIdFrom(String),
+    /// `loc.extensions.clone_from(&parsed locale's extensions)` (the map's own clone_from)
+    CloneExtFrom(String),
+    /// `clone_from` on each of the three extension lists separately
+    CloneListsFrom(String),
     /// `loc.id = std::mem::take(&mut loc.id)` round trip through Default / mem::replace
     TakeId,
 }
@@ -108,6 +112,8 @@ pub fn s_op() -> SBoxedStrategy<Op> {
         1 => Just(Op::TakeId),
         2 => prop_oneof![2 => sel(CLONE_SRC), 1 => crate::gen::s_ast().prop_map(|a| String::from_utf8_lossy(&a.render_plain()).to_string())].prop_map(Op::CloneFrom),
         2 => sel_or(TLANGS, crate::gen::s_langid_bytes().prop_map(|b| String::from_utf8_lossy(&b).to_string()).sboxed()).prop_map(Op::CloneIdFrom),
+        2 => prop_oneof![2 => sel(CLONE_SRC), 1 => crate::gen::s_ast().prop_map(|a| String::from_utf8_lossy(&a.render_plain()).to_string())].prop_map(Op::CloneExtFrom),
+        2 => prop_oneof![2 => sel(CLONE_SRC), 1 => crate::gen::s_ast().prop_map(|a| String::from_utf8_lossy(&a.render_plain()).to_string())].prop_map(Op::CloneListsFrom),
     ]
     .sboxed();
     let b = prop_oneof![
@@ -139,7 +145,7 @@ pub fn s_op() -> SBoxedStrategy<Op> {
         1 => Just(Op::ClearTags),
     ]
     .sboxed();
-    prop_oneof![15 => a, 20 => b, 13 => c, 10 => d, 3 => e].sboxed()
+    prop_oneof![15 => a, 20 => b, 13 => c, 10 => d, 4 => e].sboxed()
 }
 
 /// The fixed operation alphabet for exhaustive short sequences.
@@ -179,6 +185,8 @@ pub fn op_alphabet() -> Vec<Op> {
         Op::CloneSelf,
         Op::CloneIdFrom(s("ca-valencia")),
         Op::CloneFrom(s("de-u-aaa-x-zz")),
+        Op::CloneExtFrom(s("en-x-a-a")),
+        Op::CloneListsFrom(s("fr-t-en-h0-hybrid-u-ca-greg")),
     ]
 }
 
@@ -325,6 +333,22 @@ pub fn apply_lib(loc: &mut Locale, op: &Op) -> Out {
         Op::CloneIdFrom(t) => match LanguageIdentifier::from_bytes(t.as_bytes()) {
             Ok(o) => {
                 loc.id.clone_from(&o);
+                Out::Unit
+            }
+            Err(_) => Out::ArgRejected,
+        },
+        Op::CloneExtFrom(t) => match Locale::from_bytes(t.as_bytes()) {
+            Ok(o) => {
+                loc.extensions.clone_from(&o.extensions);
+                Out::Unit
+            }
+            Err(_) => Out::ArgRejected,
+        },
+        Op::CloneListsFrom(t) => match Locale::from_bytes(t.as_bytes()) {
+            Ok(o) => {
+                loc.extensions.private.clone_from(&o.extensions.private);
+                loc.extensions.unicode.clone_from(&o.extensions.unicode);
+                loc.extensions.transform.clone_from(&o.extensions.transform);
                 Out::Unit
             }
             Err(_) => Out::ArgRejected,
@@ -567,6 +591,15 @@ pub fn apply_model(m: &mut LocaleModel, op: &Op, likely: Option<LikelyFn>, lib_a
             }
             Err(_) => Out::ArgRejected,
         },
+        Op::CloneExtFrom(t) | Op::CloneListsFrom(t) => match model::ref_locale(t.as_bytes()) {
+            model::Zone::MustAccept(m2, _) => {
+                let id = std::mem::take(&mut m.id);
+                *m = m2.without_true();
+                m.id = id;
+                Out::Unit
+            }
+            _ => Out::ArgRejected,
+        },
         Op::Maximize | Op::Minimize => {
             let Some(f) = likely else { return Out::Unit };
             match f(&m.id, matches!(op, Op::Maximize)) {
@@ -648,6 +681,8 @@ pub fn op_to_json(op: &Op) -> Value {
         Op::TakeId => ("TakeId", None, None),
         Op::CloneFrom(k) => ("CloneFrom", Some(k.clone()), None),
         Op::CloneIdFrom(k) => ("CloneIdFrom", Some(k.clone()), None),
+        Op::CloneExtFrom(k) => ("CloneExtFrom", Some(k.clone()), None),
+        Op::CloneListsFrom(k) => ("CloneListsFrom", Some(k.clone()), None),
     };
     json!({"op": name, "a": a, "v": v})
 }
@@ -689,6 +724,8 @@ pub fn op_from_json(j: &Value) -> Option<Op> {
         "TakeId" => Op::TakeId,
         "CloneFrom" => Op::CloneFrom(a()?),
         "CloneIdFrom" => Op::CloneIdFrom(a()?),
+        "CloneExtFrom" => Op::CloneExtFrom(a()?),
+        "CloneListsFrom" => Op::CloneListsFrom(a()?),
         _ => return None,
     })
 }
@@ -737,5 +774,7 @@ pub fn op_name(op: &Op) -> &'static str {
         Op::TakeId => "TakeId",
         Op::CloneFrom(_) => "CloneFrom",
         Op::CloneIdFrom(_) => "CloneIdFrom",
+        Op::CloneExtFrom(_) => "CloneExtFrom",
+        Op::CloneListsFrom(_) => "CloneListsFrom",
     }
 }
